@@ -25,7 +25,9 @@ import os
 WATCH = (os.path.join(runner.REPO, 'clastic') + os.sep, '<sinter')
 
 VALUES = ['v', '', 'é-ünï-☃', '<b>&=?;,"\\', 0, 1, -7, 2.5, 1e100, True, False, None, [], {}, [1, [2, [3]]],
-          {'a': {'b': [None, 'x']}}, 'a' * 200, ' ', '+/=', [{'k': 'v'}, 2]]
+          {'a': {'b': [None, 'x']}}, 'a' * 200, ' ', '+/=', [{'k': 'v'}, 2],
+          # JSON texts whose base64 needs the '+' and '/' digits, at every alignment
+          'what?', '->', 'a->', 'ab->', '~', 'x~', 'xy~', '???', '>>>', '?>~', 'a?b>c~d', ['?', '>', '~'], {'q?': '>~'}, '\x7f', 'ÿþý']
 KEYS = ['k', 'j', 'user', 'ünï', 'a b', 'k&k', 'k=k', '']
 TAMPERS = ['flip', 'flip', 'trunc', 'extend', 'swap', 'resign', 'random', 'nonascii', 'badb64', 'nosep',
            'quotes', 'junk_in_mac', 'strip_pad', 'empty', 'only_sep', 'dup_item', 'expiry_forge', 'unsigned_json']
@@ -152,11 +154,12 @@ class C16(Check):
     level_text = ('Seeded search over client/clock/tamper histories with a token-registry oracle; the space is '
                   'unbounded (byte strings x times), so sampling with targeted boundary steps is the honest level.')
     level_note = 'Trusted: HMAC-SHA1 itself; the harness registry of issued tokens; simulated clock seams.'
-    required_probes = ('concurrent-clients', 'two-cookie-servers', 'expired-empty', 'valid-at-exact-expiry', 'tamper-empty', 'tamper-source-data',
+    required_probes = ('server-not-in-utc', 'concurrent-clients', 'two-cookie-servers', 'expired-empty', 'valid-at-exact-expiry', 'tamper-empty', 'tamper-source-data',
                        'cross-client-seen', 'replay-old-token', 'backward-jump-valid-again')
 
     def gen_config(self, rng):
-        return {'expiry': rng.choice([0, 'never', 50, 50, 3600, 2.5, 1]),
+        return {'tz': rng.choice(['UTC', 'UTC', 'JST-9', 'EST5EDT', 'NZST-12NZDT', 'Etc/GMT+11']),
+                'expiry': rng.choice([0, 'never', 50, 50, 3600, 2.5, 1]),
                 'arg_name': rng.choice(['cookie', 'cookie', 'sess']),
                 'cookie_name': rng.choice([None, None, 'sid', 'my-cookie']),
                 'key': rng.choice(['server-key', 'server-key', 'k', None]),
@@ -235,6 +238,24 @@ class C16(Check):
         cfg = plan['config']
         clock = SimClock()
         osp = OsProxy(str(plan.get('seed', 0) % 1000))
+        # the server's local time zone is part of the environment: signed expiry must not depend on it
+        import os as _os
+        import time as _time
+        old_tz = _os.environ.get('TZ')
+        _os.environ['TZ'] = cfg.get('tz', 'UTC')
+        _time.tzset()
+        try:
+            return self._execute(plan, cfg, clock, osp, res)
+        finally:
+            if old_tz is None:
+                _os.environ.pop('TZ', None)
+            else:
+                _os.environ['TZ'] = old_tz
+            _time.tzset()
+
+    def _execute(self, plan, cfg, clock, osp, res):
+        if cfg.get('tz', 'UTC') != 'UTC':
+            res.probe('server-not-in-utc')
         with Seams() as sm:
             sm.patch(ck, 'time', TimeProxy(clock))
             sm.patch(sc, 'time', TimeProxy(clock))
